@@ -144,6 +144,14 @@ fn check_case(ctx: &mut Ctx, c: &Case) {
             v
         })));
     }
+    if m.zeros() == 0 && len > 0 {
+        // The all-ones vector through the filling constructor of the raw vector.
+        routes.push(("RawVector::with_len(len, true)", guard(|| {
+            let mut v = BitVector::from(simple_sds::raw_vector::RawVector::with_len(len, true));
+            enable_all(&mut v);
+            v
+        })));
+    }
     if len <= 4200 {
         // Support structures enabled in other orders (the answers may not depend on the order).
         routes.push(("enable_rank, enable_pred_succ, enable_select_zero", guard(|| {
